@@ -79,7 +79,7 @@ where
     info!("Tcp server running => {}|{}|{}:{}", config.protocol, config.cipher, config.host, config.port);
     match (&config.ssl, &config.ws) {
         (None, ws_config) => {
-            while let Ok((inbound, _)) = listener.accept().await {
+            while let Some((inbound, _)) = accept(&listener).await {
                 if ws_config.is_some() {
                     tokio::spawn(template::tcp::accept_websocket_then_replay(inbound, new_codec(context.as_ref())?));
                 } else {
@@ -92,7 +92,7 @@ where
             let key = PrivateKeyDer::from_pem_file(ssl_config.key_file.as_str())?;
             let tls_config = rustls::ServerConfig::builder().with_no_client_auth().with_single_cert(vec![cert], key)?;
             let tls_acceptor = TlsAcceptor::from(Arc::new(tls_config));
-            while let Ok((inbound, _)) = listener.accept().await {
+            while let Some((inbound, _)) = accept(&listener).await {
                 let codec = new_codec(context.as_ref())?;
                 let tls_acceptor = tls_acceptor.clone();
                 let use_ws = ws_config.is_some();
@@ -113,6 +113,20 @@ where
         }
     }
     Ok(())
+}
+
+/// Accepts the next connection. A failed `accept` (a connection reset before it was accepted, no free descriptor right
+/// now) concerns that one attempt: it is logged and the listener keeps listening.
+async fn accept(listener: &TcpListener) -> Option<(tokio::net::TcpStream, std::net::SocketAddr)> {
+    loop {
+        match listener.accept().await {
+            Ok(accepted) => return Some(accepted),
+            Err(e) => {
+                error!("[tcp] accept failed; error={}", e);
+                tokio::time::sleep(std::time::Duration::from_millis(100)).await;
+            }
+        }
+    }
 }
 
 async fn startup_quic<RefContext, Context, NewCodec, Codec>(
